@@ -284,10 +284,17 @@ func (s *CatSc) checkIn(ro runOut, st *core.Stats, add func(clause, key, format 
 			continue
 		}
 		j := e.a
-		k, ok := keyOfRec([]byte(e.s))
-		if !ok || k != e.b || es[k] == 0 {
+		k := e.b
+		if es[k] == 0 || string(s.inRecMsg(k)) != e.s {
 			add("in-delivery", "altered", "listener #%d received (%d, % X), which is no record the helper emitted", j, e.b, []byte(e.s))
 			return
+		}
+		if s.filtered(k) {
+			add("listen-options", "filtered-class-delivered", "listener #%d received % X although its class is switched off (active_sense=%v timing_clock=%v sysex=%v)", j, []byte(e.s), s.ActiveSense, s.TimeCode, s.SysEx)
+			return
+		}
+		if s.Mix && len(e.s) > 0 && (e.s[0] == 0xFE || e.s[0] == 0xF8 || e.s[0] == 0xF0) {
+			st.Probe("in:option-class-delivered-because-enabled")
 		}
 		l := listeners[j]
 		if l == nil || e.t < l.lc {
@@ -328,6 +335,10 @@ func (s *CatSc) checkIn(ro runOut, st *core.Stats, add func(clause, key, format 
 		}
 		for _, k := range order {
 			if ed[k] == 0 {
+				continue
+			}
+			if s.filtered(k) {
+				st.Probe("in:record-of-a-switched-off-class")
 				continue
 			}
 			if es[k] >= l.lr && ed[k]+quiescence <= l.stopCall {
